@@ -209,12 +209,12 @@ class Runner:
                     rel = d / big
                     if integ == "eos":
                         bound = 20 * trunc[n] + ROUND_TOL * max(scale, vscale)
-                        if d > bound:
+                        if not (d <= bound):
                             V.append(("unsafe-vs-safe:%s" % integ, "safe_mode=0 differs from safe mode by %.3g after sequence %s; the scheme's own truncation error over these steps is %.3g [%s]" % (d, seq, trunc[n], lab)))
                     else:
                         c2 = bool(cfg0.get("o", {}).get("corrector2"))
                         obs["max_round_corr2" if c2 else "max_round"] = max(obs["max_round_corr2" if c2 else "max_round"], rel)
-                        if rel > (CORR2_TOL if c2 else ROUND_TOL):
+                        if not (rel <= (CORR2_TOL if c2 else ROUND_TOL)):
                             V.append(("unsafe-vs-safe:%s" % integ, "safe_mode=0 differs from safe mode by %.3g (relative %.3g) after sequence %s; the merged drift is exact, so only rounding is allowed [%s]" % (d, rel, seq, lab)))
         return V, obs
 
